@@ -43,6 +43,10 @@ def gen_case(rng):
     if rng.random() < 0.6:
         case['pipeline'].append(rng.choice([S.L('HorizontalFlip'), S.L('Transpose'), S.L('NoOp'),
                                             S.L('CoarseDropout', max_holes=2, max_height=1, max_width=1, max_depth=1)]))
+    if rng.random() < 0.25:
+        # keypoints removed from the MIDDLE of the list by a dropout with large holes (boxes are not supported there)
+        case['pipeline'] = [S.L('CoarseDropout', max_holes=3, min_holes=2, max_height=max(2, H // 2), max_width=max(2, W // 2),
+                                max_depth=max(2, D // 2), min_height=2, min_width=2, min_depth=2)]
     return case
 
 
@@ -126,6 +130,19 @@ def check(case, viol):
             exp = [fieldvals[f][i] for i in ids]
             if list(vals) != exp:
                 bad.append((f, vals, exp))
+        # the identity carried in the last inline field is itself a trailing field: where the geometry map is a plain
+        # shift (Crop / NoOp / dropout only), the annotation's own coordinates say which input it is
+        if key.startswith('keypoints') and all(sp['cls'] in ('Crop', 'NoOp', 'CoarseDropout') for sp in case['pipeline']):
+            ox = sum(sp['args'].get('x_min', 0) for sp in case['pipeline'] if sp['cls'] == 'Crop')
+            oy = sum(sp['args'].get('y_min', 0) for sp in case['pipeline'] if sp['cls'] == 'Crop')
+            oz = sum(sp['args'].get('z_min', 0) for sp in case['pipeline'] if sp['cls'] == 'Crop')
+            for a, i in zip(out, ids):
+                g = (a[2], a[1], a[0]) if kfmt == 'zyx' else (a[0], a[1], a[2])
+                k0 = case['kps'][i]
+                if any(abs(float(gv) - (kv - o)) > 1e-9 for gv, kv, o in zip(g, k0, (ox, oy, oz))):
+                    bad.append((key, 'annotation at %s carries the fields of input annotation %d, which lies at %s' % (tuple(map(float, g)), i, (k0[0] - ox, k0[1] - oy, k0[2] - oz)),
+                                'each annotation keeps its own fields'))
+                    break
     if use_boxes:
         verify('bboxes', bfields, case['box_fields'], case['inline_b'], 6)
     verify('keypoints', kfields, case['kp_fields'], case['inline_k'], klen)
